@@ -359,8 +359,19 @@ func (c *xsyncMap) DeleteExpired() {
 	c.items.Range(func(k string, v interface{}) bool {
 		i := v.(item)
 		if i.expiredWithNow(now) {
-			c.items.Delete(k)
-			if ec != nil {
+			// The traversal works on a copy: delete only if k still holds
+			// an expired item, and report the item actually removed.
+			removed := false
+			c.items.Compute(k, func(value interface{}, loaded bool) (interface{}, bool) {
+				if loaded {
+					if cur := value.(item); cur.expiredWithNow(now) {
+						i, removed = cur, true
+						return nil, true
+					}
+				}
+				return value, !loaded
+			})
+			if removed && ec != nil {
 				evictedItems = append(evictedItems, kv{k, i.v})
 			}
 		}
